@@ -128,7 +128,10 @@ Definition step (s : lst) (o : op) : lst :=
       else set_state s SStopped (iface_close (close RCtx (l_closed s)))
     | _ => s
     end
-  | OStop => do_stop_end (do_stop_begin s)
+  | OStop => match l_state s with
+             | SStopping => s          (* another Stop is half way: this call returns at once *)
+             | _ => do_stop_end (do_stop_begin s)
+             end
   | OStopBegin => do_stop_begin s
   | OStopEnd => do_stop_end s
   | ORebind =>
